@@ -155,6 +155,16 @@ func (b *Bridge) after(in *hub.Instance, g *bridgeGhost, op engine.Op, pre *view
 		}
 	}
 
+	// reference observed height: events of this block that the hub counts as applied (its observed event
+	// nonce covers them) were voted by a quorum of honest validators
+	if endBlock {
+		for _, p := range g.Pending {
+			if p.EvNonce != 0 && p.EvNonce <= in.Hub.GetLastObservedEventNonce(ctx, mhubtypes.ChainID(p.Chain)) && p.Height > g.ObsHeight[p.Chain] {
+				g.ObsHeight[p.Chain] = p.Height
+			}
+		}
+	}
+
 	// ---- C04: no transfer in two places
 	for k, l := range locs {
 		if len(l) > 1 {
@@ -294,12 +304,24 @@ func (b *Bridge) after(in *hub.Instance, g *bridgeGhost, op engine.Op, pre *view
 			continue
 		}
 		st.Count("batches_cancelled", 1)
+		{
+			w := &wbatch{Chain: ch, Token: pb.ExternalTokenId, Nonce: pb.BatchNonce, Timeout: pb.Timeout}
+			for _, e := range pb.Transactions {
+				w.IDs = append(w.IDs, e.Id)
+				if !isCold(ch, e.ExternalRecipient) {
+					w.Amts = append(w.Amts, e.Token.Amount.String())
+				}
+			}
+			if ch != "minter" && g.stillExecutable(w) {
+				g.Withdrawn[k] = w
+			}
+		}
 		if ch == "minter" {
 			b.v(st, "C13", "minter_batch_withdrawn", op.Kind, "minter batch %s left the store without an execution event", k)
 			continue
 		}
 		// legitimate causes
-		obs := in.Hub.GetLastObservedExternalBlockHeight(ctx, mhubtypes.ChainID(ch)).ExternalHeight
+		obs := g.ObsHeight[ch] // reference: quorum-observed only (the hub's own record is what is under test)
 		byTimeout := !endBlock && obs >= pb.Timeout
 		byLater := false
 		if endBlock {
@@ -351,6 +373,12 @@ func (b *Bridge) after(in *hub.Instance, g *bridgeGhost, op engine.Op, pre *view
 			if ch != "minter" && older && still {
 				b.v(st, "C13", "older_batch_not_released", "batchTxExecuted", "batch %s still pending after later batch %s executed", k, ek)
 			}
+		}
+	}
+
+	for k, w := range g.Withdrawn {
+		if !g.stillExecutable(w) {
+			delete(g.Withdrawn, k)
 		}
 	}
 
@@ -428,6 +456,18 @@ func (b *Bridge) after(in *hub.Instance, g *bridgeGhost, op engine.Op, pre *view
 			continue
 		}
 		x.Where = l[0].where
+	}
+	// C12: the expiry sweep runs in every EndBlocker, so no unbatched transfer older than the timeout survives one
+	if endBlock {
+		for ch, es := range post.Pool {
+			for _, e := range es {
+				// module-created transfers without a refund destination (refund re-sends, #fee, #commission)
+				// have nobody to be returned to: they simply stay pending
+				if e.RefundChainId != "" && int64(e.CreatedAt)+b.timeoutDur() < now {
+					b.v(st, "C12", "overdue_transfer_not_refunded", "refundExpiredTxs", "%s/%d created at %d is still in the pool after the EndBlocker at %d (timeout %d s)", ch, e.Id, e.CreatedAt, now, b.timeoutDur())
+				}
+			}
+		}
 	}
 	if len(expiredNow) > 0 {
 		b.expiryOracle(in, g, expiredNow, newIDs, locs, preBal, postBal, st)
